@@ -16,8 +16,10 @@ and the extracted Coq model (coq/OpbText.v, coq/Latex.v):
          decoder rows_of_latex (model) applied to the implementation's text must give
          one row per clause / constraint with that row's literal tokens, \\square for
          the empty clause and \\top only for the empty formula.
-A line break in a header field or variable name is written raw into the OPB text
-(known deviation D4, same mechanism as in DIMACS)."""
+Header fields and variable names with line breaks are compared byte for byte too
+(print_opb models the writer after the repair of D4); a text equal to
+print_opb_as_found on such an input is the old defect come back and is reported
+with its failing input."""
 import io
 
 import lib
@@ -25,20 +27,22 @@ from lib import cmd, Sym, import_impl, is_error
 import c06
 
 META = dict(
-    technique='Coq theorems over a character-level model of the OPB and LaTeX writers (opb_roundtrip_partial with an independent '
-              'reader, opb_shape_partial, latex_rows_*) + extracted-model differential check (texts byte for byte; the model\'s '
+    technique='Coq theorems over a character-level model of the OPB and LaTeX writers (opb_roundtrip with an independent '
+              'reader, opb_shape, for every header and name list; latex_rows_*, latex_rows_literals) + extracted-model differential check (texts byte for byte; the model\'s '
               'reader / decoder run on the implementation\'s output)',
     category='proof',
     text='Machine-checked theorems state, for every CNF or pseudo-Boolean formula with literals in range and operators >= / ==, '
-         'every header and name list without line breaks, that an independent OPB reader applied to the written text returns the '
+         'every header and every list of variable names (line breaks included), that an independent OPB reader applied to the written text returns the '
          'declared number of variables and, constraint by constraint, the same coefficients, literals, relation and degree, and '
          'that the text is the counts line, comment lines and one line per constraint; and that the LaTeX align blocks decode, for '
-         'every row split, to one row per clause / constraint in order with exactly that row\'s literal tokens, the empty clause '
+         'every row split, to one row per clause / constraint in order with exactly that row\'s literal tokens, each of which '
+         'decodes back to the polarity and the variable name of the literal, the empty clause '
          'as \\square and \\top only for the empty formula. The model is tied to the code by comparing texts byte for byte and by '
          'running the model\'s reader / decoder on the implementation\'s output.',
     note='Trusted: Coq kernel, extraction, OCaml driver, the harness. The model is hand-written and covers 8-bit characters. '
          'The LaTeX decoder theorem assumes names without white space. Coefficients 0 and 1 are both printed as no coefficient in '
-         'LaTeX (D26). Known deviation D4: a line break in a header field or name is written raw into the OPB text.',
+         'LaTeX (D26). The literal decoding assumes names that do not begin with \\overline{. D4 (a line break in a header field or name '
+         'written raw into the OPB text) is repaired in the code; the model follows the repaired writer.',
     design_ref='5/C12',
 )
 RULE = ('one case per (formula, format, header?, names?); non-trivial when the formula has a row; distinct = distinct (stream, input)')
@@ -71,7 +75,34 @@ def expected_read(F, is_opb):
     return ['ok', n, [[[[1, l] for l in c], '>=', 1] for c in F]]
 
 
+def expected_litrows(F, is_opb, tex_labels):
+    """the rows of the LaTeX rendering as literals, from the formula in memory only:
+    (polarity, variable name) per literal; for constraints the coefficient as shown"""
+    def pn(l):
+        return [l > 0, tex_labels[abs(l) - 1]]
+    rows = []
+    for con in F:
+        if is_opb:
+            rows.append(['constraint', [[str(c) if c > 1 else '', pn(l)] for (c, l) in con[:-2]],
+                         '>=' if con[-2] == '>=' else '==', str(con[-1])])
+        elif len(con) == 0:
+            rows.append(['square'])
+        else:
+            rows.append(['clause', [pn(l) for l in con]])
+    return rows
+
+
 def opb_shape_defect(text, n, m):
+    """direct check of the shape, as a reader splitting at "\\n" only and as a reader of a file in text mode see it"""
+    d = opb_shape_defect1(text, n, m)
+    if d is None and '\r' in text:
+        d = opb_shape_defect1(text.replace('\r\n', '\n').replace('\r', '\n'), n, m)
+        if d is not None:
+            d += ' (when read with universal newlines)'
+    return d
+
+
+def opb_shape_defect1(text, n, m):
     if not text.endswith('\n'):
         return 'last line not terminated'
     lines = text.split('\n')[:-1]
@@ -148,12 +179,36 @@ def build(ctx, cnfgen, quick):
         F.add_constraint([(2, 1), (3, -2), (1, -6), (4, -7), (2, -8), '>=', 3])
         return F
     add('named opb variables', 'opb-hand', True, o4)
+    def o5():
+        F = CNF()
+        F.new_variable('\\overline{x}_1')
+        F.new_variable('x_1')
+        F.add_clause([1, -2])
+        return F
+    add('name beginning with \\overline{', 'cnf-hand', False, o5)
     for i, txt in enumerate(c06.BREAK_TEXTS):
         def ob(txt=txt):
             F = OPB(description=txt)
             F.add_constraint([(2, 1), (1, -2), '>=', 1])
             return F
         add('opb line break in description %d' % i, 'opb-break', True, ob)
+    for i in range(15 if quick else 200):
+        def obr(seed=rng.randrange(1 << 30)):
+            import random
+            r = random.Random(seed)
+            F = OPB(description=c06.break_text(r))
+            for _ in range(r.randint(0, 2)):
+                F.header[c06.break_text(r)] = c06.break_text(r)
+            for _ in range(r.randint(0, 3)):
+                try:
+                    F.new_variable(c06.break_text(r))
+                except ValueError:
+                    pass
+            if F.number_of_variables() < 2:
+                F.update_variable_number(2)
+            F.add_constraint([(2, 1), (1, -2), r.choice(['>=', '==']), 1])
+            return F
+        add('opb random fields with line breaks %d' % i, 'opb-break-random', True, obr)
     for rows in (1, 2, 34, 35, 36, 70, 71):
         def many(rows=rows):
             F = OPB()
@@ -247,10 +302,14 @@ def run(ctx):
     reqs = []
     for j in jobs:
         c = j['c']
-        reqs.append(cmd('print_opb', c06.opt(c06.header_for_model(c['F']) if j['header'] else None),
-                        c06.opt(c['labels'] if j['names'] else None), model_formula(c['F'], c['is_opb'])))
+        margs = (c06.opt(c06.header_for_model(c['F']) if j['header'] else None),
+                 c06.opt(c['labels'] if j['names'] else None), model_formula(c['F'], c['is_opb']))
+        reqs.append(cmd('print_opb', *margs))
         reqs.append(cmd('parse_opb', j['text'] if j['text'] is not None and c06.latin1(j['text']) else ''))
-    reps = ctx.model.batch(reqs)
+        reqs.append(cmd('print_opb_as_found', *margs))
+    reps3 = ctx.model.batch(reqs)
+    reps = [x for i, x in enumerate(reps3) if i % 3 != 2]
+    as_found = reps3[2::3]
     for k, j in enumerate(jobs):
         c = j['c']
         F = c['F']
@@ -274,22 +333,21 @@ def run(ctx):
         if is_error(mp) or is_error(mr):
             ctx.violation('correspondence', 'model error', dict(input=descr, model=[mp, mr]), False, site='model-error', cls='opb')
             continue
-        if broken:
-            if mp == text and not (read_ok and defect is None):
-                ctx.violation('counterexample', 'a line break inside a header field or variable name is written raw into the OPB text: '
-                              'a line that is neither a comment nor a constraint', dict(input=descr, text=text[:400], reader=mr, shape=defect,
-                                                                                         theorem='opb_header_newline_refuted'),
-                              True, site=FINDING_SITE, cls=FINDING_CLS)
-            elif not (read_ok and defect is None):
-                ctx.violation('counterexample', 'OPB text of a formula with a line break in header/name is malformed, and not the way the model predicts',
-                              dict(input=descr, text=text[:400], model_text=mp[:400], reader=mr, shape=defect), True,
-                              site='to_opb_file', cls='line-break-other')
+        ctx.tally('opb: line break in header/name', broken)
+        old_text = broken and as_found[k] == text          # the writer as it was before the repair of D4
+        if old_text and (read_ok is False or defect is not None):
+            ctx.disagreements_checked += 1
+            ctx.violation('counterexample', 'a line break inside a header field or variable name is written raw into the OPB text again '
+                          '(the text is the one of print_opb_as_found): a line that is neither a comment nor a constraint of the formula',
+                          dict(input=descr, text=text[:400], expected_text=mp[:400], reader=mr, shape=defect,
+                               theorem='opb_roundtrip / opb_shape hold of print_opb; opb_header_newline_refuted describes this text'),
+                          True, site=FINDING_SITE, cls=FINDING_CLS)
             continue
         if read_ok is False or defect is not None:
             ctx.disagreements_checked += 1
             ctx.violation('counterexample', 'the OPB text does not denote the formula in memory: %s' % (defect or 'an independent reader returns other constraints'),
                           dict(input=descr, text=text[:500], reader=mr if mr != want else 'as in memory', in_memory=want, shape=defect), True,
-                          site='to_opb_file', cls='shape' if defect else 'denotation')
+                          site='to_opb_file', cls=('line-break-other' if broken else 'shape' if defect else 'denotation'))
             continue
         if mp != text:
             ctx.disagreements_checked += 1
@@ -326,6 +384,8 @@ def run(ctx):
         reqs.append(cmd('print_latex', c['tex_labels'], -1, True, f))
         reqs.append(cmd('formula_lrows', c['tex_labels'], f))
         reqs.append(cmd('rows_of_latex', c['is_opb'], j['snippet'] or ''))
+        reqs.append(cmd('latex_litrows', c['is_opb'], j['snippet'] or ''))
+        reqs.append(cmd('formula_litrows', c['tex_labels'], f))
         for (header, extra, doc, _) in j['docs']:
             reqs.append(cmd('print_latex_document', str(c['F'].header['description']),
                             c06.opt(c06.header_for_model(c['F']) if header else None), extra, c['tex_labels'], f))
@@ -335,6 +395,7 @@ def run(ctx):
         c = j['c']
         F = c['F']
         msnip, mrows, drows = next(reps), next(reps), next(reps)
+        dlits, mlits = next(reps), next(reps)
         descr = dict(formula=c['label'], kind='OPB' if c['is_opb'] else 'CNF', n=c['n'], rows=len(F),
                      constraints=mem_constraints(F, c['is_opb']) if len(F) <= 12 else '%d rows' % len(F), names=c['tex_labels'][:12])
         names_ok = not any(ch.isspace() for nm in c['tex_labels'] for ch in nm)
@@ -364,6 +425,25 @@ def run(ctx):
             ctx.violation('correspondence', 'to_latex() text differs from the model (Latex.v print_latex_string)',
                           dict(input=descr, implementation=j['snippet'][:500], model=(msnip[1][:500] if msnip else None),
                                correspondence='Latex.v print_latex <-> _print_latex'), False, site='to_latex', cls='text-differs')
+        # the same, read as literals: (polarity, variable name) of every literal of every row, against the formula in memory
+        decodable = not any(nm.startswith('\\overline{') for nm in c['tex_labels'])
+        ctx.tally('latex names decodable (none begins with \\overline{)', decodable)
+        try:
+            want_lits = expected_litrows(F, c['is_opb'], c['tex_labels'])
+        except IndexError:
+            want_lits = None
+        if names_ok and decodable and want_lits is not None:
+            ctx.count('latex-literals', c['label'], len(F) > 0)
+            if dlits != [len(F) == 0, [['some', r] for r in want_lits]]:
+                ctx.disagreements_checked += 1
+                bad = next((i for i, (a, b) in enumerate(zip(dlits[1], want_lits)) if a != ['some', b]), None)
+                ctx.violation('counterexample', 'the LaTeX rows do not show the literals of the formula in memory (row %s): polarity or variable name differs' % bad,
+                              dict(input=descr, text=j['snippet'][:600], decoded=dlits[1][bad] if bad is not None else [dlits[0], len(dlits[1])],
+                                   expected=want_lits[bad] if bad is not None else [len(F) == 0, len(want_lits)], theorem='latex_rows_literals'),
+                              True, site='to_latex', cls='literals')
+            elif mlits != ['some', want_lits]:
+                ctx.violation('correspondence', 'formula_litrows (Latex.v) differs from the literal rows computed by the harness',
+                              dict(input=descr, model=mlits, harness=want_lits), False, site='Latex.formula_litrows', cls='differs')
         for (header, extra, doc, dexc) in j['docs']:
             mdoc, mbody = next(reps), next(reps)
             ctx.count('latex-document', (c['label'], header), len(F) > 0)
@@ -371,6 +451,16 @@ def run(ctx):
                 ctx.violation('counterexample', 'writing the LaTeX document raised %s' % dexc[0], dict(input=descr, implementation=dexc), True,
                               site='to_latex_document', cls='raises-' + dexc[0])
                 continue
+            if names_ok and decodable and want_lits is not None and not header:
+                start = doc.find('\\begin{align}')
+                lits = ctx.model.call(Sym('latex_litrows'), c['is_opb'], doc[start:doc.rfind('\\end{document}')] if start >= 0 else '')
+                ctx.count('latex-document-literals', c['label'], len(F) > 0)
+                if lits != [len(F) == 0, [['some', r] for r in want_lits]]:
+                    ctx.disagreements_checked += 1
+                    ctx.violation('counterexample', 'the LaTeX document (35 rows per block) does not show the literals of the formula in memory',
+                                  dict(input=descr, decoded_rows=len(lits[1]), expected_rows=len(want_lits), theorem='latex_rows_literals'), True,
+                                  site='to_latex_document', cls='literals')
+                    continue
             if mdoc != ['some', doc]:
                 ctx.disagreements_checked += 1
                 # does the document still contain the right rows?  decode its align part
